@@ -307,6 +307,12 @@ type hsys struct {
 	// an implementation may keep bookkeeping (registration counts) that past
 	// removals leave behind and that no probe shows until later.
 	past [3]int
+	// ever: bit i = list i of subSets has been fully unsubscribed by somebody at
+	// some point. The trie is one shared structure: what a removal leaves behind
+	// in it (a pruned branch that is still referenced, a count) depends on WHICH
+	// list went away, not on who removed it. everMask selects the bits that are
+	// part of the canonical state (quick: the wildcard list; thorough: all).
+	ever, everMask int
 }
 
 func (s *hsys) offered(p []string) [3]bool {
@@ -361,6 +367,9 @@ func (s *hsys) Apply(i int) []seqmc.Violation {
 			} else if s.active[o.client] >= 0 {
 				s.past[o.client] |= 2
 			}
+			if s.active[o.client] >= 0 {
+				s.ever |= 1 << uint(s.active[o.client])
+			}
 			s.active[o.client] = -1
 		}
 	}
@@ -384,6 +393,7 @@ func (s *hsys) Key() string {
 	for ci := 0; ci < 3; ci++ {
 		fmt.Fprintf(&b, "%d/%d;", s.active[ci], s.past[ci])
 	}
+	fmt.Fprintf(&b, "ever=%d;", s.ever&s.everMask)
 	// observable behaviour of the trie on the probe set
 	var obs []string
 	for _, p := range [][]string{{"t", "p", "a"}, {"t", "p", "a", "b"}, {"t", "p", "a", "c"}, {"t", "p", "b"}, {"t", "p", "x", "c"}, {"t", "p"}} {
@@ -393,7 +403,7 @@ func (s *hsys) Key() string {
 	return b.String() + strings.Join(obs, "")
 }
 
-func specHistories(depth int) seqmc.Spec {
+func specHistories(depth int, fullMask bool) seqmc.Spec {
 	var ops []hop
 	var names []string
 	for c := 0; c < 3; c++ {
@@ -410,7 +420,11 @@ func specHistories(depth int) seqmc.Spec {
 		}
 	}
 	return seqmc.Spec{Name: "histories: subscribe/unsubscribe by 3 clients via addSubscription, probed after every step (closure)", Ops: names, Depth: depth, New: func() seqmc.Sys {
-		return &hsys{ops: ops, m: match.New(), active: [3]int{-1, -1, -1}}
+		mask := 1 << 2 // the list with a wildcard element
+		if fullMask {
+			mask = 1<<uint(len(subSets)) - 1
+		}
+		return &hsys{ops: ops, m: match.New(), active: [3]int{-1, -1, -1}, everMask: mask}
 	}}
 }
 
@@ -422,7 +436,7 @@ func (harness) Specs(tier string) []seqmc.Spec {
 	if tier == "thorough" {
 		n = 5
 	}
-	return []seqmc.Spec{specRelation(n), specContainTree(n), specContainGNMI(), specOnce(), specHistories(30)}
+	return []seqmc.Spec{specRelation(n), specContainTree(n), specContainGNMI(), specOnce(), specHistories(30, tier == "thorough")}
 }
 
 func main() { seqmc.Main(harness{}) }
